@@ -35,6 +35,18 @@ theorem split_lossless (F : Nat) (hF : 0 < F) (p : Pkt) (g : Nat) :
     show ((p.payload.drop (i * F)).take F).length ≤ F
     rw [List.length_take]; omega
 
+
+/-- **One Job number per group**: `write` gives a packet without a Job number one before it is split
+(`withJob`, the repaired code), so all fragments carry the same Job number — non-zero whenever the
+drawn number is — and everything above applies to the packet with that number. -/
+theorem split_one_job (F : Nat) (hF : 0 < F) (p : Pkt) (g j : Nat) :
+    (∀ f ∈ split F (withJob p j) g, f.job = (withJob p j).job) ∧
+    (p.job = 0 → p.flags &&& Facts.flagProxy = 0 → p.id.toNat > 1 → (withJob p j).job = j) ∧
+    (p.job ≠ 0 → withJob p j = p) := by
+  refine ⟨fun f hf => ((split_lossless F hF (withJob p j) g).2.2 f hf).2.2.1, ?_, ?_⟩
+  · intro h1 h2 h3; unfold withJob; simp [h1, h2, h3]
+  · intro h; unfold withJob; simp [h]
+
 /-- **Exactly once, identical, any order after fragment 0** (the `_partial` form, see the header):
 when fragment 0 arrives first and the others in *any* order `R`, the first `m-1` arrivals are only
 stored, the last one delivers exactly one packet whose ID, job, device, flags and payload are the
